@@ -941,6 +941,23 @@ func (in *Interp) store(st *State, addr, v AV, pos token.Pos) {
 				return
 			}
 		}
+		// a field of a struct element of an array / slice under construction: &arr[i].f
+		if er, ok := a.Base.(ElemRef); ok {
+			if r, ok := er.Base.(Ref); ok {
+				if o := st.heap[r.ID]; o != nil && o.Kind == 'a' {
+					if i, ok := asInt(er.Idx); ok && i >= 0 && int(i) < len(o.Elems) {
+						sv, _ := o.Elems[i].(StructV)
+						nf := map[string]AV{}
+						for k, x := range sv.Fields {
+							nf[k] = x
+						}
+						nf[a.Field] = v
+						o.Elems[i] = StructV{T: sv.T, Fields: nf}
+						return
+					}
+				}
+			}
+		}
 		if fr, ok := a.Base.(FieldRef); ok {
 			if r, ok := fr.Base.(Ref); ok {
 				if o := st.heap[r.ID]; o != nil && o.Kind == 's' {
@@ -965,6 +982,21 @@ func (in *Interp) store(st *State, addr, v AV, pos token.Pos) {
 			}
 		}
 	}
+	// a store into a heap object through an address shape that is not modelled: what the object holds there is
+	// unknown from now on (never the stale value)
+	if root, ok := rootRefOf(addr); ok {
+		if o := st.heap[root.ID]; o != nil {
+			for i := range o.Elems {
+				o.Elems[i] = Top{"imprecise store"}
+			}
+			for k := range o.Fields {
+				o.Fields[k] = Top{"imprecise store"}
+			}
+			if o.Kind == 'c' {
+				o.Val = Top{"imprecise store"}
+			}
+		}
+	}
 	key := locKey(addr)
 	if key == "" {
 		key = addr.String()
@@ -972,6 +1004,23 @@ func (in *Interp) store(st *State, addr, v AV, pos token.Pos) {
 		st.symMem[key] = v
 	}
 	st.Events = append(st.Events, Event{Kind: "store", Target: key, Args: []AV{v}, Pos: pos, Stack: st.stackString()})
+}
+
+// rootRefOf: the heap object an address expression points into.
+func rootRefOf(addr AV) (Ref, bool) {
+	for depth := 0; depth < 8; depth++ {
+		switch a := addr.(type) {
+		case Ref:
+			return a, true
+		case FieldRef:
+			addr = a.Base
+		case ElemRef:
+			addr = a.Base
+		default:
+			return Ref{}, false
+		}
+	}
+	return Ref{}, false
 }
 
 func (in *Interp) instrs(st *State, b, pred *ssa.BasicBlock, idx int, k kont) {
